@@ -2,6 +2,7 @@ import Qentem.Proofs.ExprEval
 import Qentem.Proofs.ExprScanWf
 import Qentem.Proofs.ExprScanTotal
 import Qentem.Proofs.ExprScanPrint
+import Qentem.Proofs.ExprArithExact
 import Qentem.Generated.Expr
 /-!
 # C04 — expression evaluation equals exact arithmetic with the documented precedence
@@ -291,9 +292,11 @@ end
 `Num.ival` reads an integer-kind operand as the integer it denotes (`Natural` below 2^63 so that
 the signed reading of the union agrees, `Integer` by two's complement).  Real-kind operations are
 the field operations of the carrier by definition (`Num.add … = .real (l.toReal + r.toReal)`), so
-at `R := Rat` they are exact arithmetic.  Multiplication with an Integer-kind factor and `^` are not
-covered here (`arith_exact_partial`); the Python `Fraction` oracle of `checks/c04.py` covers them
-on the real code. -/
+at `R := Rat` they are exact arithmetic.  `mul_exact` (any integer kinds: the 64-bit product of the
+two patterns read signed is the product of the signed readings, `toInt_mul`) and `exp_exact`
+(`PowerOf` = power modulo 2^64, `powerOfF_eq`; sign by the parity of the exponent) complete the list
+for integer-kind operands; a negative exponent gives the real `1 / p` (carrier arithmetic); `0 ^ 0`
+is 0 in the code and excluded from `exp_exact`. -/
 
 section
 variable {R : Type} [RealLike R]
@@ -419,6 +422,141 @@ theorem cmp_exact (l r : Num R) (a b : Int) (hl : Num.ival l = some a) (hr : Num
   obtain ⟨hr1, hr2⟩ := key r b hr
   cases l <;> cases r <;> simp [Num.isReal] at hl1 hr1 <;>
     simp [Num.lt', Num.le', Num.gt', Num.ge', Num.eq', Num.cmp, hl2, hr2]
+
+theorem ival_nat (x : Nat) (v : Int) (h : Num.ival (Num.nat x : Num R) = some v) : x < H64 ∧ (x : Int) = v ∧ toInt x = v := by
+  simp only [Num.ival] at h
+  split at h
+  · rename_i hx; simp at h; subst h; exact ⟨hx, rfl, by simp [toInt, hx]⟩
+  · simp at h
+
+theorem ival_int (x : Nat) (v : Int) (h : Num.ival (Num.int x : Num R) = some v) : x < W64 ∧ toInt x = v := by
+  simp only [Num.ival] at h
+  split at h
+  · rename_i hx; simp at h; exact ⟨hx, h⟩
+  · simp at h
+
+/-- multiplication of integer-kind operands is integer multiplication when the product fits -/
+theorem mul_exact (l r : Num R) (a b : Int) (hl : Num.ival l = some a) (hr : Num.ival r = some b)
+    (hlo : -(H64 : Int) ≤ a * b) (hhi : a * b < (H64 : Int)) :
+    Num.ival (Num.mul l r) = some (a * b) := by
+  have mk : ∀ (z : Nat), z < W64 → Num.ival (Num.int z : Num R) = some (toInt z) := by
+    intro z hz; simp [Num.ival, hz]
+  have hHW : H64 < W64 := by simp [H64, W64]
+  cases l with
+  | real x => simp [Num.ival] at hl
+  | nat x =>
+    obtain ⟨hx, hxa, hxt⟩ := ival_nat x a hl
+    cases r with
+    | real y => simp [Num.ival] at hr
+    | nat y =>
+      obtain ⟨hy, hyb, _⟩ := ival_nat y b hr
+      subst hxa hyb
+      have hxy : x * y < H64 := by
+        have : ((x * y : Nat) : Int) < (H64 : Int) := by rw [Int.natCast_mul]; exact hhi
+        exact Int.ofNat_lt.mp this
+      exact mul_exact_nat x y hxy
+    | int y =>
+      obtain ⟨hy, hyb⟩ := ival_int y b hr
+      subst hxt hyb
+      obtain ⟨h1, h2⟩ := toInt_mul x y (by omega) hy hlo hhi
+      simp only [Num.mul]; rw [mk _ h1, h2]
+  | int x =>
+    obtain ⟨hx, hxa⟩ := ival_int x a hl
+    cases r with
+    | real y => simp [Num.ival] at hr
+    | nat y =>
+      obtain ⟨hy, _, hyt⟩ := ival_nat y b hr
+      subst hxa hyt
+      obtain ⟨h1, h2⟩ := toInt_mul x y hx (by omega) hlo hhi
+      simp only [Num.mul]; rw [mk _ h1, h2]
+    | int y =>
+      obtain ⟨hy, hyb⟩ := ival_int y b hr
+      subst hxa hyb
+      obtain ⟨h1, h2⟩ := toInt_mul x y hx hy hlo hhi
+      simp only [Num.mul]; rw [mk _ h1, h2]
+
+/-- sign and magnitude of an integer-kind operand -/
+theorem signMag_ival (n : Num R) (a : Int) (h : Num.ival n = some a) :
+    Num.signMag n = some (decide (a < 0), a.natAbs) ∧ a.natAbs < W64 := by
+  cases n with
+  | real x => simp [Num.ival] at h
+  | nat x =>
+    obtain ⟨hx, hxa, _⟩ := ival_nat x a h
+    subst hxa
+    simp only [Num.signMag, Int.natAbs_natCast]
+    exact ⟨by simp, by simp only [H64, W64] at *; omega⟩
+  | int x =>
+    obtain ⟨hx, hxa⟩ := ival_int x a h
+    subst hxa
+    simp only [Num.signMag]
+    unfold toInt
+    by_cases hlt : x < H64
+    · simp only [hlt, if_true]
+      have : ¬ ((x : Int) < 0) := by omega
+      simp only [this, if_false, decide_false, Int.natAbs_natCast]
+      exact ⟨trivial, hx⟩
+    · simp only [hlt, if_false]
+      have hneg : (x : Int) - (W64 : Int) < 0 := by simp only [W64] at *; omega
+      simp only [hneg, if_true, decide_true]
+      have hw : wrap x = x := Nat.mod_eq_of_lt hx
+      have hn : negBits x = W64 - x := by
+        unfold negBits; rw [hw]; exact Nat.mod_eq_of_lt (by simp only [W64, H64] at *; omega)
+      have habs : ((x : Int) - (W64 : Int)).natAbs = W64 - x := by simp only [W64, H64] at *; omega
+      rw [hn, habs]
+      exact ⟨rfl, by simp only [W64, H64] at *; omega⟩
+
+/-- `^` with integer-kind operands and a non-negative exponent is the integer power when the
+magnitude fits 63 bits; `0 ^ 0` is excluded (the code gives 0) -/
+theorem exp_exact (l r : Num R) (a b : Int) (hl : Num.ival l = some a) (hr : Num.ival r = some b)
+    (hb : 0 ≤ b) (hne : a ≠ 0 ∨ b ≠ 0) (hfit : a.natAbs ^ b.toNat < H64) :
+    ∃ v, Num.exp l r = some v ∧ Num.ival v = some (a ^ b.toNat) := by
+  obtain ⟨hsl, hla⟩ := signMag_ival l a hl
+  obtain ⟨hsr, hrb⟩ := signMag_ival r b hr
+  have hbn : b.natAbs = b.toNat := by omega
+  have hbneg : decide (b < 0) = false := by simp; omega
+  rw [hbn, hbneg] at hsr
+  rw [hbn] at hrb
+  simp only [Num.exp, hsl, hsr]
+  by_cases hbase : a.natAbs = 0
+  · have ha0 : a = 0 := by omega
+    have hb0 : b.toNat ≠ 0 := by
+      rcases hne with h | h
+      · exact absurd ha0 h
+      · omega
+    simp only [hbase, ne_eq, not_true_eq_false, if_false]
+    refine ⟨_, rfl, ?_⟩
+    subst ha0
+    obtain ⟨k, hk⟩ : ∃ k, b.toNat = k + 1 := ⟨b.toNat - 1, by omega⟩
+    simp [Num.ival, H64, hk, Int.pow_succ]
+  · simp only [ne_eq, hbase, not_false_eq_true, if_true]
+    by_cases hn0 : b.toNat = 0
+    · simp only [hn0, not_true_eq_false, if_false]
+      exact ⟨_, rfl, by simp [Num.ival, H64]⟩
+    · simp only [hn0, not_false_eq_true, if_true, Bool.false_eq_true, if_false]
+      have hp : powerOf a.natAbs b.toNat = a.natAbs ^ b.toNat :=
+        powerOf_eq _ _ hla (by omega) hrb (by simp only [H64, W64] at *; omega)
+      rw [hp]
+      have hpos : 0 < a.natAbs ^ b.toNat := Nat.pow_pos (by omega)
+      have hcast : ((a.natAbs ^ b.toNat : Nat) : Int) = (a.natAbs : Int) ^ b.toNat := Int.natCast_pow _ _
+      by_cases hodd : (decide (a < 0) && decide (b.toNat % 2 = 1)) = true
+      · simp only [hodd, if_true]
+        obtain ⟨h1, h2⟩ := toInt_negBits _ hpos hfit
+        refine ⟨_, rfl, ?_⟩
+        simp only [Num.ival, h1, if_true, h2, hcast]
+        simp only [Bool.and_eq_true, decide_eq_true_eq] at hodd
+        have : a = -(a.natAbs : Int) := by omega
+        rw [this, neg_pow_int, if_pos hodd.2]
+        simp
+      · simp only [hodd, Bool.false_eq_true, if_false]
+        refine ⟨_, rfl, ?_⟩
+        simp only [Num.ival, hfit, if_true, hcast]
+        simp only [Bool.and_eq_true, decide_eq_true_eq, not_and] at hodd
+        by_cases hneg : a < 0
+        · have : a = -(a.natAbs : Int) := by omega
+          rw [this, neg_pow_int, if_neg (hodd hneg)]
+          simp
+        · have : a = (a.natAbs : Int) := by omega
+          rw [this]; simp
 
 end
 
